@@ -35,6 +35,7 @@ double vs_now(void);                /* virtual clock (seconds) */
 uint64_t vs_rand(void);             /* scenario-level randomness from the same seed (separate stream) */
 uint64_t vs_steps(void);
 int vs_tid(void);
+void vs_set_event_fn(void (*fn)(int kind, const void *p1, const void *p2, long v)); /* called for every runtime event before it is logged (monitors) */
 void vs_autoname_units(int on); /* name every work unit T<n> at its create event (E 1), unname at free (E 3) */
 void vs_set_unit_fn(const void *(*fn)(void)); /* returns the current work unit descriptor or NULL */
 const char *vs_addr_name(const void *p, char *buf, size_t n);
